@@ -61,8 +61,12 @@ PLAN = {
 }
 
 # sanitizer builds run every n-th case of each family (they are 3-10x slower)
-SUBSAMPLE = {("race", "quick"): 8, ("race", "thorough"): 2, ("asan", "quick"): 8, ("asan", "thorough"): 2,
+SUBSAMPLE = {("cover", "quick"): 10, ("cover", "thorough"): 200, ("C18", "cover", "quick"): 4, ("C18", "cover", "thorough"): 40,
+             ("race", "quick"): 8, ("race", "thorough"): 2, ("asan", "quick"): 8, ("asan", "thorough"): 2,
              ("C18", "race", "quick"): 1, ("C18", "race", "thorough"): 1}
+
+for _p in PLAN:
+    PLAN[_p] = PLAN[_p] + [("cover", 1, 1)]  # statement coverage of the anchored files on a sample of the same case list (evidence of reach)
 
 WATCHDOG = {"quick": 900, "thorough": 5400}
 # per-case limit in seconds (a single generated case is milliseconds; C18 configurations and thorough C11 id sweeps are the long ones)
@@ -123,6 +127,8 @@ def build(variant, outdir=None):
         cmd.append("-race")
     elif variant == "asan":
         cmd.append("-asan")
+    elif variant == "cover":
+        cmd += ["-cover", "-coverpkg=github.com/free5gc/ike/...,verifharness/..."]
     cmd.append("./cmd/vharness")
     t0 = time.time()
     r = sh(cmd, cwd=HARNESS, env=GOENV)
@@ -166,6 +172,9 @@ def run_children(prop, tier, seed, plan, workdir, only=None):
             env["GOTRACEBACK"] = "all"
             if variant == "race":
                 env["GORACE"] = "halt_on_error=0 log_path=%s.race" % out
+            if variant == "cover":
+                os.makedirs(out + ".covdir", exist_ok=True)
+                env["GOCOVERDIR"] = out + ".covdir"
             if variant == "asan":
                 env["ASAN_OPTIONS"] = "halt_on_error=1:abort_on_error=0:detect_leaks=0:log_path=%s.asan" % out
             procs.append({"variant": variant, "shard": i, "n": n, "out": out, "errf": errf, "cmd": cmd, "env": env})
@@ -264,6 +273,46 @@ def tail_head(path):
         return ""
 
 
+def anchored_files(prop):
+    import fnmatch
+    pats = []
+    try:
+        with open(os.path.join(VERIF, "properties.jsonl")) as f:
+            for line in f:
+                rec = json.loads(line)
+                if rec["id"] == prop:
+                    pats = rec["anchors"]["files"]
+    except OSError:
+        pass
+    return pats
+
+
+def code_coverage(prop, workdir):
+    """per-function statement coverage of the property's anchored files, from the cover child's GOCOVERDIR"""
+    import fnmatch
+    dirs = glob.glob(os.path.join(workdir, "*.covdir"))
+    if not dirs:
+        return None
+    r = sh(["go", "tool", "covdata", "func", "-i=" + ",".join(dirs)], env=GOENV, cwd=HARNESS)
+    if r.returncode != 0:
+        return {"error": r.stdout[-300:]}
+    pats = anchored_files(prop)
+    funcs, reached, total = {}, 0, 0
+    for line in r.stdout.splitlines():
+        m = re.match(r"github\.com/free5gc/ike/(\S+?):(\d+):\s+(\S+)\s+([\d.]+)%", line)
+        if not m:
+            continue
+        path, fn, pct = m.group(1), m.group(3), float(m.group(4))
+        if not any(fnmatch.fnmatch(path, pt) for pt in pats):
+            continue
+        funcs["%s:%s" % (path, fn)] = pct
+        total += 1
+        reached += pct > 0
+    return {"anchored_files": pats, "functions_in_anchored_files": total, "functions_reached": reached,
+            "not_reached": sorted(k for k, v in funcs.items() if v == 0)[:60],
+            "per_function_statement_pct": dict(sorted(funcs.items()))}
+
+
 def dedupe_reports(reports):
     seen, out = set(), []
     for r in reports:
@@ -290,7 +339,7 @@ def main():
     args = sys.argv[1:]
     if args and args[0] == "--setup":
         ok = True
-        for variant in ("plain", "race", "asan"):
+        for variant in ("plain", "race", "cover", "asan"):
             b, err = build(variant)
             if b is None:
                 log(err)
@@ -454,6 +503,7 @@ def main():
         "known_findings_matched": {k: n for k, (_, n) in known_hit.items()},
         "notes": notes,
         "info": info,
+        "code_coverage_sample": code_coverage(prop, workdir),
         "repo_tree_hash": tree_hash(os.environ.get("VERIF_REPO_OVERRIDE") or REPO),
         "harness_tree_hash": tree_hash(HARNESS),
     }
